@@ -7,6 +7,7 @@ let closed = ref false
 let kmax = ref 12
 let kb = ref (kempty (zi 12))
 let kvs = ref 0
+let sqs = ref { vs = Z0; vr = Z0 }
 let do_drain () =
   let calls = ref 0 in
   let stop = ref false in
@@ -45,6 +46,16 @@ let () =
              kb := kb';
              Printf.printf "kc %d old=%d new=%d slots=%s\n" (if b then 1 else 0) (iz kb'.oldest) (iz kb'.newest)
                (String.concat "" (List.map (fun x -> string_of_int (iz x) ^ ",") kb'.slots)))
+    | ["sq"; v1; v2] -> sqs := { vs = zi (int_of_string v1); vr = zi (int_of_string v2) }
+    | "ev" :: kind :: rest ->
+        let e = (match kind, rest with
+          | "i", [hex] -> ESendI (bytes_of_hex hex)
+          | "s", _ -> ESendS
+          | "u", [c] -> ESendU (zi (int_of_string c))
+          | _ -> EAccept) in
+        let (s', out) = sq_step !sqs e in
+        sqs := s';
+        List.iter (fun f -> Printf.printf "f %s %d\n" (hex_of_bytes f) (if wf_apdu f then 1 else 0)) out
     | ["kfull"] -> Printf.printf "kf %d\n" (if is_full !kb then 1 else 0)
     | [] -> ()
     | _ -> print_endline ("? " ^ line))
